@@ -32,7 +32,8 @@ var (
 
 var typesAcceptableKinds = map[Type][]reflect.Kind{
 	IntType: {reflect.Int, reflect.Int8, reflect.Int16, reflect.Int32, reflect.Int64,
-		reflect.Uint8, reflect.Uint16, reflect.Uint32, reflect.Uint, reflect.Uint64, reflect.Uintptr},
+		reflect.Uint8, reflect.Uint16, reflect.Uint32, reflect.Uint, reflect.Uint64, reflect.Uintptr,
+		reflect.Struct /* big.Int */},
 	FloatType: {reflect.Float32, reflect.Float64},
 	BlobType:  {reflect.Slice, reflect.Array},
 	ListType:  {reflect.Slice, reflect.Array},
